@@ -259,6 +259,39 @@ def job_blanks(chunk):
     return acc
 
 
+@worker
+def job_wide(width):
+    """Tables around 256 cells per row (small-integer identity, buffer sizes): rectangular ones are accepted with every cell in
+    place, a row that deviates by one cell is reported at that row."""
+    acc = Acc()
+    t = None
+    for host in ('datatable', 'examples'):
+        pre = 'Feature: f\n  Scenario: s\n    Given g\n' if host == 'datatable' else 'Feature: f\n  Scenario Outline: s\n    Given g\n    Examples:\n'
+        first = pre.count('\n') + 1
+        for counts in ((width, width), (width, width, width), (width, width + 1), (width, width, width - 1), (width + 1, width, width + 1)):
+            t = pre + ''.join('      |' + ''.join(' c%d |' % i for i in range(c)) + '\n' for c in counts)
+            case = {'kind': 'text', 'text': t if len(t) < 600 else t[:300] + '...'}
+            acc.n += 1
+            acc.validated += 1
+            acc.nontrivial += 1
+            a = I.parse(t)
+            dev = next((i for i, c in enumerate(counts) if c != counts[0]), None)
+            if a[0] == 'exc':
+                acc.violation('foreign-exception', case, 'parser raised ' + a[1])
+            elif dev is None:
+                if a[0] != 'ok':
+                    acc.violation('rectangular-rejected', case, 'rectangular table of %d cells per row rejected' % width, observed=a[1][:2])
+            else:
+                want = [(first + dev, 7, '(%d:7): inconsistent cell count within the table' % (first + dev))]
+                if a[0] == 'ok':
+                    acc.violation('ragged-accepted', case, 'ragged table accepted (row cell counts %s)' % (counts,))
+                elif [e[:3] for e in a[1]] != want:
+                    acc.violation('ragged-error', case, 'ragged wide table: expected exactly one error at the first deviating row', observed=[e[:3] for e in a[1]], expected=want)
+            check_doc(t, acc, 'table')
+    acc.sample({'text': (t or '')[:200]})
+    return acc
+
+
 def run(ctx):
     probs = R.selftest()
     ctx.selftest(not probs, 'reference pipeline reproduces the acceptance corpus (%s)' % (probs[:3] or 'ok'))
@@ -278,6 +311,7 @@ def run(ctx):
     ctx.notes['unicode_blanks'] = len(ub)
     ctx.level('every Unicode blank in cells (%d characters)' % len(ub), [job_blanks.job(ub[i:i + 4]) for i in range(0, len(ub), 4)])
     ctx.level('table shapes rows<=4', [job_rect.job(n) for n in (1, 2, 3, 4)])
+    ctx.level('wide tables (cells per row around 256 / 1000)', [job_wide.job(w) for w in (255, 256, 257, 258, 300, 1000)])
 
 
 def replay(case):
